@@ -14,6 +14,7 @@ MANIFEST = {
 
 
 from .common import TRIE_SOURCES, TRIE_STUBS, PKT_STUBS
+from .sync_common import *
 
 
 def jobs(tier):
@@ -22,20 +23,24 @@ def jobs(tier):
          recv_job(core, "recv_mem_asserts_L%d" % L, None, L, True, ndebug=False)]
     for nm, entry in (("recv_all", "harness_recv"), ("send_all", "harness_send")):
         J.append(core.Job(name="transport_" + nm, harness="transport_all.c", entry=entry, defines=["TLEN=%d" % (12 if tier == "quick" else 20)],
-                          unwind=26, timeout=900, memory_checks=True, object_bits=9,
+                          unwind=26, timeout=900, memory_checks=True, object_bits=9, flags_meta=["unwind-is-violation"],
                           desc="real %s over a transport with arbitrary chunk sizes 1..remaining and faults at any call" % nm,
                           bounds={"length": "0..%d bytes" % (12 if tier == "quick" else 20)},
                           stubs=["recv/send callbacks: arbitrary chunking and faults", "clock: arbitrary"]))
-    for ndebug in (True, False):
-        J.append(core.Job(name="hostile_pdu_to_trie" + ("" if ndebug else "_asserts"), harness="pdu_to_trie.c", entry="harness",
-                          defines=["TD=1", "TE=1", "FAM=4"], unwind=9, ndebug=ndebug,
+    for ndebug, v6 in ((True, False), (False, False), (True, True), (False, True)):
+        if tier == "quick" and v6:
+            continue
+        J.append(core.Job(name="hostile_record_to_trie_v%d" % (6 if v6 else 4) + ("" if ndebug else "_asserts"), harness="pdu_to_trie.c", entry="harness",
+                          defines=["TD=0", "TE=1", "FAM=4", "LENGTHS_CHECKED", "TL_SHAPE=1", "TL_NRECS=1"] + (["REC_V6"] if v6 else []), unwind=9, ndebug=ndebug,
                           unwindset={"trie_insert": 4, "trie_remove": 4, "trie_lookup.0": 5, "trie_lookup_exact.0": 5,
-                                     "pfx_table_del_elem.0": 3, "tr_send_all.0": 70, "snprintf.0": 100, "strlen.0": 100,
-                                     "lrtr_ipv6_addr_convert_byte_order.0": 5, "memcmp.0": 20},
-                          timeout=1800, mem_gb=16, memory_checks=True, object_bits=12,
-                          sources=TRIE_SOURCES + ["rtrlib/lib/convert_byte_order.c"],
-                          desc="hostile IPv4/IPv6 prefix PDU (any length/max-length/flags/host bits) through the real "
-                               "rtr_update_pfx_table into the real trie (arbitrary Inv-valid 3-node pre-state) + arbitrary validate; "
-                               "all CBMC memory-safety checks on" + ("" if ndebug else "; rtrlib asserts enabled"),
-                          bounds={"template_depth": 1, "records_per_node": 1}, stubs=TRIE_STUBS + PKT_STUBS))
+                                     "pfx_table_del_elem.0": 3},
+                          timeout=1800, mem_gb=16, memory_checks=True, object_bits=12, sources=TRIE_SOURCES,
+                          desc="record as copied from a prefix PDU (lengths as rtr_update_pfx_table lets them through, host bits / "
+                               "AS / max-length arbitrary) added to or removed from the real trie (pre-state: one IPv4 node with one "
+                               "record + arbitrary 0/1-node IPv6 trie, all values symbolic) + arbitrary validate; all CBMC memory-safety and undefined-shift checks on"
+                               + ("" if ndebug else "; rtrlib asserts enabled"),
+                          bounds={"template_depth": 0, "records_per_node": 1}, stubs=TRIE_STUBS))
+    # the length check itself: no record with a length beyond the address width reaches the tables
+    for sk in [[CR, V4, EOD], [CR, V6, EOD], [CR, V4, V6, EOD]]:
+        J.append(sync_job("ASSERT_C04", sk))
     return J
